@@ -217,9 +217,14 @@ Definition gammatone_sampled (freq bandwidth phase : R) (eta : nat) : list filt 
 
 (* gammatone_erb_constants(n) = (factorial(n-1)**2 / (pi * factorial(2n-2) * 2 ** -(2n-2)),
                                  2 * (2 ** (1. / n) - 1) ** .5) *)
+Fixpoint Zfact (n : nat) : Z :=
+  match n with
+  | O => 1%Z
+  | S k => (Z.of_nat n * Zfact k)%Z
+  end.
 Definition erb_constant_x (n : nat) : R :=
   let tnt := (2 * n - 2)%nat in
-  (INR (fact (n - 1))) ^ 2 / (PI * INR (fact tnt) * / (2 ^ tnt)).
+  (IZR (Zfact (n - 1))) ^ 2 / (PI * IZR (Zfact tnt) * / (2 ^ tnt)).
 Definition erb_constant_y (n : nat) : R := 2 * sqrt (exp (ln 2 * (1 / INR n)) - 1).
 
 End RealDesigns.
